@@ -2,8 +2,8 @@
 (* Writes the complete method x credential x target matrix of Api.tla for the replay over real TLS. *)
 EXTENDS Api, Json
 CONSTANTS OutFile
-Cells == {[cred |-> c, method |-> m, target |-> tg, admitted |-> Admitted(c), may |-> Admitted(c) /\ MayObtain(Creds[c].cn, m, tg)] :
-            c \in CredIds, m \in Methods, tg \in {"c1", "c2"}}
+Cells == {[cred |-> c, method |-> m, target |-> tg, server |-> sm, admitted |-> Admitted(c), may |-> Admitted(c) /\ MayObtain(Creds[c].cn, m, tg)] :
+            c \in CredIds, m \in Methods, tg \in {"c1", "c2"}, sm \in ServerModes}
 ASSUME JsonSerialize(OutFile, [cells |-> Cells, count |-> Cardinality(Cells)])
 VARIABLE x
 Init == x = 0
